@@ -21,7 +21,7 @@ from ..paths import Path, PathEnumerator, find_calls
 from ..report import Report
 from ..sym import (FALSE, NONE, TRUE, Evaluator, Frame, Term, Unsupported, as_lin, atoms_of, const, lin, number, show, subst, subterms, sym,
                    t_add, t_and, t_cmp, t_div, t_mul, t_not, t_scale)
-from .common import call_arg, call_args, is_call_of, loop_of, strip_identity_wrappers
+from .common import call_arg, call_args, devar, is_call_of, loop_of, strip_identity_wrappers
 
 # Stim gate aliases -> canonical name (stim 1.1x `stim.gate_data(name).name`); a key that is an alias is never matched by
 # instruction.name.  Frozen reference data, cross-checked against the installed stim in the thorough tier when importable.
@@ -40,6 +40,14 @@ def check(model: Model, rep: Report, tier: str):
     n2_n3(model, rep, tier)
     n4(model, rep)
     n5(model, rep)
+
+
+def atoms_of_cond(t: Term) -> set:
+    """guards of a conditional value (ite tree)"""
+    out = set()
+    if isinstance(t, tuple) and t and t[0] == "ite":
+        out |= set(atoms_of(t[1])) | atoms_of_cond(t[2]) | atoms_of_cond(t[3])
+    return out
 
 
 def _instr(v: Optional[Term]) -> Optional[Dict[str, Term]]:
@@ -65,47 +73,38 @@ def n1(model: Model, rep: Report):
     circ, settings = sym(f.param_names[1]), sym(f.param_names[2])
     construct = "StimNoiseDresserFactoryManager.construct"
     flat = ("call", ("attr", circ, "flattened"), (), ())
+    from ..listflow import as_flatmap
     for p in [q for q in ps if q.exit == "return"]:
         loops = [e for e in p.events if e.kind == "loop"]
-        if len(loops) != 3:
-            raise AnalysisError(f"{construct}: expected three passes, found {len(loops)}")
-        L1, L2, L3 = loops
-        src = strip_identity_wrappers(L1.term)
+        if len(loops) < 2:
+            raise AnalysisError(f"{construct}: expected a dressing walk, an emit pass and the additive pass, found {len(loops)} loops")
+        L2, L3 = loops[-2], loops[-1]
+        # the dressing walk as  [y for ins in flattened for y in F(ins)]  (comprehension, or accumulator loop with append / extend)
+        fm = as_flatmap(p, L2.term)
+        if fm is None:
+            raise AnalysisError(f"{construct}: the collection that is emitted ({show(L2.term)[:80]}) is not read as 'every instruction replaced by a list'")
+        src, ins, F = fm
+        src = strip_identity_wrappers(src)
         if src[0] == "call" and src[1] == "enumerate":
             src = src[2][0]
-        rep.check(src == flat, "C14.N1", construct + "[source]", f.loc, found=show(L1.term), required="the whole flattened input circuit", what="not every input instruction is visited", detail="source")
-        elem = ("bound", "for", L1.node.lineno, show(L1.term))
-        ins = ("item", elem, 1) if L1.term[0] == "call" and L1.term[1] == "enumerate" else elem
+            ins = ("item", ins, 1)
+        rep.check(src == flat, "C14.N1", construct + "[source]", f.loc, found=show(fm[0]), required="the whole flattened input circuit", what="not every input instruction is visited", detail="source")
         name = ("attr", ins, "name")
         supported = ("call", ("attr", s, "contains"), (), (("factory_key", name),))
         bad = []
-        coll = None
-        for bp in L1.extra["paths"]:
-            apps = [c for e in bp.events if e.kind == "effect" for c in find_calls(e.term, "append")]
-            exts = [c for e in bp.events if e.kind == "effect" for c in find_calls(e.term, "extend")]
-            sup = subst(bp.cond, {supported: TRUE})
-            uns = subst(bp.cond, {supported: FALSE})
-            if uns == TRUE:
-                if len(apps) != 1 or apps[0][2] != (ins,) or exts:
-                    bad.append("an unsupported instruction is not passed through unchanged exactly once")
-                else:
-                    coll = apps[0][1][1]
-            elif sup == TRUE:
-                want = ("call", ("attr", ("sub", ("attr", s, "factory_lookup"), name), "construct"), (), (("instruction", ins), ("settings", settings)))
-                got = [(list(c[2]) + [v for _, v in c[3]]) for c in exts]
-                got_n = []
-                for c in exts:
-                    a = (list(c[2]) + [v for _, v in c[3]])[0]
-                    if a[0] == "call" and isinstance(a[1], tuple) and a[1][0] == "attr" and a[1][2] == "construct":
-                        kw = dict(a[3])
-                        pos = list(a[2])
-                        got_n.append((a[1][1], kw.get("instruction", pos[0] if pos else None), kw.get("settings", pos[1] if len(pos) > 1 else None)))
-                if len(exts) != 1 or apps or got_n != [(("sub", ("attr", s, "factory_lookup"), name), ins, settings)]:
-                    bad.append("a supported instruction is not replaced by the result of its own dresser exactly once")
-            else:
-                bad.append(f"walk condition is not just 'supported': {show(bp.cond)}")
-            if bp.exit not in ("fall", "continue"):
-                bad.append(f"walk left by {bp.exit}")
+        coll = L2.term
+        f_sup, f_uns = subst(F, {supported: TRUE}), subst(F, {supported: FALSE})
+        if atoms_of_cond(F) - {supported}:
+            bad.append(f"walk condition is not just 'supported': {show(F)[:160]}")
+        if f_uns != ("list", (ins,)):
+            bad.append("an unsupported instruction is not passed through unchanged exactly once")
+        ok_sup = f_sup[0] == "call" and isinstance(f_sup[1], tuple) and f_sup[1][0] == "attr" and f_sup[1][2] == "construct" and f_sup[1][1] == ("sub", ("attr", s, "factory_lookup"), name)
+        if ok_sup:
+            kw = dict(f_sup[3])
+            pos = list(f_sup[2])
+            ok_sup = (kw.get("instruction", pos[0] if pos else None), kw.get("settings", pos[1] if len(pos) > 1 else None)) == (ins, settings)
+        if not ok_sup:
+            bad.append("a supported instruction is not replaced by the result of its own dresser exactly once")
         rep.check(not bad, "C14.N1", construct + "[dress-walk]", f.loc, found="; ".join(sorted(set(bad))) or "append or extend on every path", required="every instruction is appended or replaced by its dressed form",
                   what="input instructions can be lost or duplicated while dressing: " + "; ".join(sorted(set(bad))), detail="dress-walk")
         # second pass appends all
@@ -126,23 +125,27 @@ def n1(model: Model, rep: Report):
     ps = PathEnumerator(ev).function_paths(f, self_cls=D)
     s = sym(f.self_name)
     ins, settings = sym(f.param_names[1]), sym(f.param_names[2])
+    from ..listflow import as_single_comp
+    n_ret = 0
     for p in [q for q in ps if q.exit == "return"]:
-        lp = loop_of(p)
-        if lp is None:
-            raise AnalysisError("MeasurementNoiseDresserFactory.construct: no loop")
-        src_ok = lp.term == ("call", ("fn", "intrf_noise_factory.extract_instruction_targets"), (), (("instruction", ins),))
-        rep.check(src_ok, "C14.N1", "MeasurementNoiseDresserFactory.construct[targets]", f.loc, found=show(lp.term), required="all targets of the instruction, in order", what="some measured qubits lose their measurement", detail="m-targets")
-        elem = ("bound", "for", lp.node.lineno, show(lp.term))
+        n_ret += 1
+        comp = as_single_comp(p, p.value) if p.value is not None else None
+        while comp is not None and comp[0] == "var" and comp[3][0] == "comp":
+            comp = comp[3]
+        if comp is None or comp[0] != "comp" or comp[1] != "list" or len(comp[3]) != 1:
+            raise AnalysisError(f"MeasurementNoiseDresserFactory.construct: the result is not one instruction list over the targets ({show(p.value) if p.value else None})")
+        dom, conds = comp[3][0]
+        src_ok = strip_identity_wrappers(dom) == ("call", ("fn", "intrf_noise_factory.extract_instruction_targets"), (), (("instruction", ins),))
+        rep.check(src_ok, "C14.N1", "MeasurementNoiseDresserFactory.construct[targets]", f.loc, found=show(dom), required="all targets of the instruction, in order", what="some measured qubits lose their measurement", detail="m-targets")
+        bs = subterms(comp[2], lambda x: x[0] == "bound" and x[3] == show(dom))
+        elem = bs[0] if len(bs) == 1 else None
         bad = []
-        for bp in lp.extra["paths"]:
-            apps = [c for e in bp.events if e.kind == "effect" for c in find_calls(e.term, "append") if c[1][1] == p.value]
-            if len(apps) != 1 or atoms_of(bp.cond) or bp.exit not in ("fall", "continue"):
-                bad.append(f"{len(apps)} emits on path [{show(bp.cond)}]")
-                continue
-            kw = _instr(apps[0][2][0])
-            if kw is None:
-                bad.append("emitted value is not an instruction")
-                continue
+        if conds:
+            bad.append(f"targets filtered by {show(conds[0])}")
+        kw = _instr(comp[2])
+        if kw is None or elem is None:
+            bad.append("emitted value is not an instruction of the target")
+        else:
             if kw.get("targets") != ("list", (elem,)):
                 bad.append(f"emitted on {show(kw.get('targets'))} instead of the measured target")
             ga = kw.get("gate_args")
@@ -154,9 +157,10 @@ def n1(model: Model, rep: Report):
                 rep.ok("C14.N5", "MeasurementNoiseDresserFactory.construct[assignment-error]", f.loc, found=show(ga), required="assignment error of the measured target")
             if kw.get("name") != ("attr", s, "_operation_name"):
                 bad.append(f"name {show(kw.get('name'))}")
-        rep.check(not bad and p.value is not None and p.value[0] == "var" and p.value[3] == ("list", ()), "C14.N1", "MeasurementNoiseDresserFactory.construct[one-per-target]", f.loc,
+        rep.check(not bad, "C14.N1", "MeasurementNoiseDresserFactory.construct[one-per-target]", f.loc,
                   found="; ".join(bad) or "one instruction per target", required="exactly one measurement per target, same target, same order", what="measurements are lost, duplicated or moved to another qubit: " + "; ".join(bad),
                   detail="m-emit")
+    rep.floor("return paths of MeasurementNoiseDresserFactory.construct", n_ret, 1)
     # split blocks
     P = model.cls("PauliAdditiveCircuitNoiseFactory")
     g = P.resolve("split_instruction_blocks")
@@ -224,74 +228,115 @@ def pauli_walk(model: Model, rep: Report):
         targets_all = ("call", ("fn", "intrf_noise_factory.extract_all_targets"), (), (("circuit", circ),))
         for bp in lp.extra["paths"]:
             inner = [e for e in bp.events if e.kind == "loop"]
-            if len(inner) != 2:
-                raise AnalysisError(f"{construct}: expected a per-qubit loop and an emit loop per block")
-            Q, E = inner
-            # N4: block duration
+            if not inner:
+                raise AnalysisError(f"{construct}: no emit loop per block")
+            E = inner[-1]
+            form = _wrap_form(bp, inner, block)
+            if form is None:
+                raise AnalysisError(f"{construct}: the dressed block is neither the per-qubit re-wrap [noise, *block, noise] nor [*reversed(noise list), *block, *noise list]")
+            q_dom, q, noise, problems, emitted = form
+            rep.check(not problems, "C14.N1", construct + "[wrap]", f.loc, found="; ".join(problems) or "noise ... block ... noise (symmetric, every qubit)", required="[noise(q_k) .. noise(q_1), *block, noise(q_1) .. noise(q_k)]",
+                      what="the block's own instructions are not kept between the two idle channels: " + "; ".join(problems), detail="wrap")
+            rep.check(strip_identity_wrappers(q_dom) == targets_all, "C14.N1", construct + "[qubits]", f.loc, found=show(q_dom), required="all qubits of the circuit", what="idle noise is not placed on every qubit",
+                      detail="qubits")
+            kw = _instr(noise) if noise is not None else None
+            if kw is None:
+                rep.fail("C14.N1", construct + "[wrap]", f.loc, found=show(noise) if noise else None, required="a stim instruction per qubit", what="the idle channel is not an instruction", detail="wrap-instr")
+                continue
+            setting = ("call", ("attr", settings, "get_noise_settings"), (), (("index", q),))
+            args = kw.get("gate_args")
+            ok_args = args is not None and args[0] == "list" and len(args[1]) == 3
+            t_arg = None
+            if ok_args:
+                for i, a in enumerate(args[1]):
+                    ok_i = a[0] == "item" and a[2] == i and a[1][0] == "call" and not a[1][2] and \
+                        (a[1][1] == ("fn", "PauliAdditiveCircuitNoiseFactory.get_pauli_error") or a[1][1] == ("attr", s, "get_pauli_error"))
+                    if ok_i:
+                        kwa = dict(a[1][3])
+                        ok_i = set(kwa) == {"t", "t1", "t2"} and kwa["t1"] == ("attr", setting, "t1") and kwa["t2"] == ("attr", setting, "t2")
+                        t_arg = kwa.get("t") if t_arg in (None, kwa.get("t")) else ("?",)
+                    ok_args = ok_args and ok_i
+            # N4: t == half the duration of the block's longest operation
             md = None
-            for e in bp.events:
-                if e.kind == "assign" and e.node.lineno < Q.node.lineno and e.term is not None and e.term[0] == "call" and e.term[1] == "max":
-                    md = e.term
+            if t_arg is not None and t_arg[0] == "lin" and len(t_arg[1]) == 1 and t_arg[2] == 0 and t_arg[1][0][1] == Fraction(1, 2):
+                md = devar(t_arg[1][0][0])
             ok_md = False
-            found_md = show(md) if md else None
-            if md is not None and len(md[2]) == 1 and md[2][0][0] == "comp":
+            found_md = show(t_arg) if t_arg else None
+            if md is not None and md[0] == "call" and md[1] == "max" and len(md[2]) == 1 and md[2][0][0] == "comp":
                 comp = md[2][0]
                 gens = comp[3]
                 elt = comp[2]
                 dom_ok = len(gens) == 1 and not gens[0][1] and gens[0][0] == block
-                b = subterms(elt, lambda x: x[0] == "bound")
-                elt_ok = is_call_of(elt, "get_operation_duration") and elt[1][1] == settings and len(b) == 1 and (list(elt[2]) + [v for _, v in elt[3]]) == [("attr", b[0], "name")]
+                bnd = subterms(elt, lambda x: x[0] == "bound")
+                elt_ok = is_call_of(elt, "get_operation_duration") and elt[1][1] == settings and len(bnd) == 1 and (list(elt[2]) + [v for _, v in elt[3]]) == [("attr", bnd[0], "name")]
                 dflt = dict(md[3]).get("default")
                 ok_md = dom_ok and elt_ok and (dflt is None or number(dflt) == 0)
+                found_md = "0.5 * " + show(md)
                 if not dom_ok:
                     found_md = f"max over {show(gens[0][0]) if gens else '?'}" + (" with a filter" if gens and gens[0][1] else "")
-            rep.check(ok_md, "C14.N4", construct + "[block-duration]", f.loc, found=found_md, required="max(settings.get_operation_duration(i.name) for i in <the whole block>)",
-                      what="the idling time of a block is not the duration of its longest operation (an instruction of the block is left out of the maximum)", detail="max-duration")
-            rep.check(strip_identity_wrappers(Q.term) == targets_all, "C14.N1", construct + "[qubits]", f.loc, found=show(Q.term), required="all qubits of the circuit", what="idle noise is not placed on every qubit",
-                      detail="qubits")
-            q = ("bound", "for", Q.node.lineno, show(Q.term))
-            block_name = None
-            for qp in Q.extra["paths"]:
-                if atoms_of(qp.cond) or qp.exit not in ("fall", "continue"):
-                    rep.fail("C14.N1", construct + "[wrap]", f.loc, found=f"conditional: {show(qp.cond)}", required="unconditional wrap", what="some qubits are not dressed", detail="wrap-cond")
-                    continue
-                # which local holds the block: the one rebound to a list with a starred old value
-                new_block = None
-                for n, v in qp.env.items():
-                    if v[0] == "var" and v[3][0] == "list" and any(x[0] == "star" for x in v[3][1]):
-                        new_block, block_name = v[3], n
-                ok_wrap = False
-                noise = None
-                if new_block is not None and len(new_block[1]) == 3 and new_block[1][1][0] == "star":
-                    noise = new_block[1][0]
-                    old = new_block[1][1][1]
-                    ok_wrap = new_block[1][0] == new_block[1][2] and (old == ("loopvar", block_name, Q.node.lineno))
-                rep.check(ok_wrap, "C14.N1", construct + "[wrap]", f.loc, found=show(new_block) if new_block else "block not re-bound", required="[noise, *block, noise]",
-                          what="the block's own instructions are not kept between the two idle channels", detail="wrap")
-                kw = _instr(noise) if noise is not None else None
-                if kw is None:
-                    continue
-                setting = ("call", ("attr", settings, "get_noise_settings"), (), (("index", q),))
-                md_term = md if md is not None else sym("?")
-                want_kw = (("t", t_mul(md_term, lin({}, Fraction(1, 2)))), ("t1", ("attr", setting, "t1")), ("t2", ("attr", setting, "t2")))
-                args = kw.get("gate_args")
-                ok_args = args is not None and args[0] == "list" and len(args[1]) == 3
-                if ok_args:
-                    for i, a in enumerate(args[1]):
-                        ok_args = ok_args and a[0] == "item" and a[2] == i and a[1][0] == "call" and a[1][3] == want_kw and not a[1][2] and \
-                            (a[1][1] == ("fn", "PauliAdditiveCircuitNoiseFactory.get_pauli_error") or a[1][1] == ("attr", s, "get_pauli_error"))
-                rep.check(ok_args, "C14.N4", construct + "[time-and-coherence]", f.loc, found=show(args) if args else None, required="px, py, pz = get_pauli_error(t=max_duration/2, t1, t2 of THIS qubit)",
-                          what="the idle channel is not computed from half the block duration and the qubit's own T1/T2", detail="pauli-args")
-                rep.check(kw.get("targets") == ("list", (q,)), "C14.N5", construct + "[target]", f.loc, found=show(kw.get("targets")), required="[the qubit whose settings were looked up]",
-                          what="the idle channel acts on another qubit than the one whose coherence times it uses", detail="pauli-target")
-                rep.check(kw.get("name") == ("attr", s, "_operation_name"), "C14.N2", construct + "[name]", f.loc, found=show(kw.get("name")), required="the configured channel name", what="inserted instruction name changed", detail="pauli-name")
+            rep.check(ok_md, "C14.N4", construct + "[block-duration]", f.loc, found=found_md, required="0.5 * max(settings.get_operation_duration(i.name) for i in <the whole block>)",
+                      what="the idling time of a block is not half the duration of its longest operation (an instruction of the block is left out of the maximum)", detail="max-duration")
+            rep.check(ok_args, "C14.N4", construct + "[time-and-coherence]", f.loc, found=show(args) if args else None, required="px, py, pz = get_pauli_error(t=max_duration/2, t1, t2 of THIS qubit)",
+                      what="the idle channel is not computed from half the block duration and the qubit's own T1/T2", detail="pauli-args")
+            rep.check(kw.get("targets") == ("list", (q,)), "C14.N5", construct + "[target]", f.loc, found=show(kw.get("targets")), required="[the qubit whose settings were looked up]",
+                      what="the idle channel acts on another qubit than the one whose coherence times it uses", detail="pauli-target")
+            rep.check(kw.get("name") == ("attr", s, "_operation_name"), "C14.N2", construct + "[name]", f.loc, found=show(kw.get("name")), required="the configured channel name", what="inserted instruction name changed", detail="pauli-name")
             # emit loop
             e_el = ("bound", "for", E.node.lineno, show(E.term))
-            ok_e = block_name is not None and E.term == ("after", block_name, Q.node.lineno) and len(E.extra["paths"]) == 1 and not atoms_of(E.extra["paths"][0].cond)
+            ok_e = E.term == emitted and len(E.extra["paths"]) == 1 and not atoms_of(E.extra["paths"][0].cond)
             if ok_e:
                 ap = [c for e in E.extra["paths"][0].events if e.kind == "effect" for c in find_calls(e.term, "append")]
                 ok_e = len(ap) == 1 and ap[0][2] == (e_el,)
             rep.check(ok_e, "C14.N1", construct + "[emit]", f.loc, found=show(E.term), required="append every instruction of the wrapped block", what="wrapped blocks are not emitted completely", detail="emit")
+
+
+def _wrap_form(bp, inner, block):
+    """(qubit domain, qubit element, noise instruction, problems, emitted term) of one block's dressing, from either spelling."""
+    problems: List[str] = []
+    if len(inner) == 2:
+        # per-qubit re-wrap: for q in Q: block = [noise(q), *block, noise(q)]
+        Q, E = inner
+        q = ("bound", "for", Q.node.lineno, show(Q.term))
+        noise, block_name = None, None
+        for qp in Q.extra["paths"]:
+            if atoms_of(qp.cond) or qp.exit not in ("fall", "continue"):
+                problems.append(f"conditional: {show(qp.cond)}")
+                continue
+            new_block = None
+            for n, v in qp.env.items():
+                if v[0] == "var" and v[3][0] == "list" and any(x[0] == "star" for x in v[3][1]):
+                    new_block, block_name = v[3], n
+            if new_block is None:
+                problems.append("block not re-bound")
+                continue
+            if not (len(new_block[1]) == 3 and new_block[1][1][0] == "star" and new_block[1][0] == new_block[1][2]
+                    and new_block[1][1][1] == ("loopvar", block_name, Q.node.lineno)):
+                problems.append(f"re-bound to {show(new_block)[:120]}")
+                continue
+            noise = new_block[1][0]
+        init = Q.extra["init_env"].get(block_name) if block_name else None
+        if block_name is not None and init != block:
+            problems.append(f"the wrap starts from {show(init) if init else None}, not from the block")
+        return Q.term, q, noise, problems, (("after", block_name, Q.node.lineno) if block_name else None)
+    if len(inner) == 1:
+        # display: dressed = [*reversed(noise_list), *block, *noise_list] with noise_list = [noise(q) for q in Q]
+        E = inner[0]
+        d = devar(E.term) if E.term is not None else None
+        if d is None or d[0] != "list" or len(d[1]) != 3 or not all(x[0] == "star" for x in d[1]):
+            return None
+        left, mid, right = (x[1] for x in d[1])
+        if not (left[0] == "call" and left[1] == "reversed" and len(left[2]) == 1 and left[2][0] == right):
+            problems.append(f"left part {show(left)[:80]} is not the reversed right part")
+        if mid != block:
+            problems.append(f"middle part {show(mid)[:80]} is not the block")
+        if right[0] != "comp" or right[1] != "list" or len(right[3]) != 1 or right[3][0][1]:
+            return None
+        q_dom = right[3][0][0]
+        bs = subterms(right[2], lambda x: x[0] == "bound" and x[3] == show(q_dom))
+        if len(bs) != 1:
+            return None
+        return q_dom, bs[0], right[2], problems, E.term
+    return None
 
 
 # ---------------------------------------------------------------------------------------------
@@ -422,7 +467,7 @@ def n5(model: Model, rep: Report):
     want_f = ("call", ("attr", ns, "get_default_noise_settings"), (), ())
     for case, mp, want in (("mapped", {mapped: TRUE}, want_t), ("unmapped", {mapped: FALSE}, want_f)):
         hit = [o for o in outs if subst(o.cond, mp) == TRUE]
-        ok = len(hit) == 1 and hit[0].kind == "return" and hit[0].value == want
+        ok = len(hit) == 1 and hit[0].kind == "return" and hit[0].value is not None and subst(hit[0].value, mp) == want
         rep.check(ok, "C14.N5", f"IndexedNoiseSettings.get_noise_settings[{case}]", f.loc, found=[show(o.value) for o in hit], required=show(want),
                   what="per-qubit settings are not looked up through the index map (or the defaults are used for a mapped qubit)", detail=f"indexed:{case}")
     N = model.cls("NoiseSettings")
@@ -434,7 +479,7 @@ def n5(model: Model, rep: Report):
     present = ("in", qid, ind)
     for case, mp, want in (("configured", {present: TRUE}, ("sub", ind, qid)), ("not configured", {present: FALSE}, ("call", ("attr", gs, "get_default_noise_settings"), (), ()))):
         hit = [o for o in outs if subst(o.cond, mp) == TRUE]
-        ok = len(hit) == 1 and hit[0].kind == "return" and hit[0].value == want
+        ok = len(hit) == 1 and hit[0].kind == "return" and hit[0].value is not None and subst(hit[0].value, mp) == want
         rep.check(ok, "C14.N5", f"NoiseSettings.get_noise_settings[{case}]", g.loc, found=[show(o.value) for o in hit], required=show(want), what="a qubit's own noise entry is not used", detail=f"settings:{case}")
     d = N.resolve("get_default_noise_settings")
     v = Evaluator(model, inline_methods=False).value_of(d, self_cls=N)
@@ -450,7 +495,7 @@ def n5(model: Model, rep: Report):
     has = ("in", ident, mapper)
     for case, mp, want in (("known", {has: TRUE}, ("sub", mapper, ident)), ("unknown", {has: FALSE}, ("attr", ("attr", ("attr", hs, "noise_settings"), "operation_durations"), "default_duration"))):
         hit = [o for o in outs if subst(o.cond, mp) == TRUE]
-        ok = len(hit) == 1 and hit[0].kind == "return" and hit[0].value == want
+        ok = len(hit) == 1 and hit[0].kind == "return" and hit[0].value is not None and subst(hit[0].value, mp) == want
         rep.check(ok, "C14.N5", f"IndexedNoiseSettings.get_operation_duration[{case}]", h.loc, found=[show(o.value) for o in hit], required=show(want), what="operation durations are not read from the configured table",
                   detail=f"duration-lookup:{case}")
     a = model.function("noise_factory_manager", "apply_noise")
